@@ -50,7 +50,8 @@ pub fn generate(g: &mut G, _index: u64) -> Scenario {
             id: t as u32,
             kind: g.pick(&[TimerKind::Interval, TimerKind::IntervalWith, TimerKind::DelayedSend, TimerKind::DelayedExec]),
             period: p,
-            handler_sleep: if g.chance(1, 6) { g.range(1, p.max(2) - 1) } else { 0 },
+            // tick handlers never use more than half of the actor's time in total
+            handler_sleep: if g.chance(1, 6) && p / (2 * nt.max(1)) >= 1 { g.range(1, p / (2 * nt.max(1))) } else { 0 },
         }));
     }
     let kinds: &[HKind] = if cause == Cause::LastDrop { &[HKind::WeakSender, HKind::WeakAddr] } else { &[HKind::Addr, HKind::Sender, HKind::WeakSender] };
@@ -193,7 +194,8 @@ pub fn check(v: &View) -> Vec<Violation> {
             if let Some(t0) = cen.t0() {
                 if t0 < v.phase_seq(Phase::ClientsDone) && v.out.outcome.cap_phase == 0 && !cen.lib_temporaries_possible && !cen.maybe_at(t0) {
                     crate::log::probe("c10_last_drop_with_timer");
-                    if a.dead.is_none_or(|d| d > v.phase_seq(Phase::HandlesDropped)) {
+                    let hd = v.phase_seq(Phase::HandlesDropped);
+                    if a.dead.is_none_or(|d| d > hd) && !v.busy_at(a, hd) {
                         out.push(violation(P, "timer-kept-actor-alive", "", format!("actor {aidx}: last strong handle gone at seq {t0}, timers registered, but the actor was still running when the epilogue began")));
                     }
                 }
